@@ -149,8 +149,10 @@ def gen(rng, tier):
                         continue
                     if quick:
                         faults = [(rng.randrange(n), rng.choice(FAULTS)) for _ in range(2)]
+                    elif n <= 4:
+                        faults = [(p, k) for p in range(n) for k in FAULTS]          # every fault kind at every position
                     else:
-                        faults = [(p, k) for p in range(n) for k in FAULTS]
+                        faults = [(rng.randrange(n), rng.choice(FAULTS)) for _ in range(8)]
                     for f in faults:
                         cases.append(build(rng, st, n, a, b, fault=f))
             # solve_period for every label spec
@@ -202,7 +204,32 @@ def _state(o):
     return (o['vals'], o['status'], o['iters'], o['log'])
 
 
+KNOWN_DEFAULTS_SIG = 'C05|default-start-end-looked-up-by-label|repeated-label'
+
+
+def default_by_label_class(case):
+    """The class of the kept finding: solve() / iter_periods() turn a DEFAULT start / end position into its label and look that
+    label up again; when that label is carried by several periods the round trip does not come back to the position."""
+    if case['entry'] != 'solve' or case['span_type'] in sc.SPAN_NODUP or case['n'] == 0:
+        return False
+    n = case['n']
+    cnt = sc.label_counts(case)
+    a, b = case.get('lags', 0), n - 1 - case.get('leads', 0)
+    return (case['start'] is None and 0 <= a < n and cnt[a] >= 2) or (case['end'] is None and 0 <= b < n and cnt[b] >= 2)
+
+
 def oracle(case, obs):
+    fails = _oracle(case, obs)
+    c = view(case, obs)
+    if fails and default_by_label_class(c):
+        return [{'sig': KNOWN_DEFAULTS_SIG,
+                 'what': 'solve() with a default start / end on a %s span in which the label of the default period is carried by several '
+                         'periods: the default position is converted to its label and looked up again (list: first occurrence, NumPy: '
+                         'KeyError, pandas: slice / mask -> TypeError); %s' % (c['span_type'], fails[0]['what'])}]
+    return fails
+
+
+def _oracle(case, obs):
     fails = []
 
     def bad(sig, what):
@@ -215,8 +242,11 @@ def oracle(case, obs):
     exp = sc.expected_range(case)
     if exp is None:
         return fails
-    # every label of a span without repeats resolves to its own position (all supported span types)
+    # every label carried by exactly one period resolves to that position, as a built-in int (all supported span types)
+    cnt = [obs['ids'].count(obs['ids'][i]) for i in range(n)]
     for i in range(n):
+        if cnt[i] != 1:
+            continue
         got = obs['loc'].get(str(obs['ids'][i]))
         if got != ['int', i]:
             bad('locate|%s' % case['span_type'], 'the label of period %d of a %s span must resolve to the single position %d (a built-in int); '
